@@ -10,11 +10,14 @@ import FsModel.ArchiveDriver
 import FsModel.RouteDriver
 import FsModel.FaultDriver
 import FsModel.GuardDriver
+import FsModel.ParseDriver
+import FsModel.WalkDriver
+import FsModel.ConfineDriver
 
 open Fs
 
 def handlers : List (String → List String → Option String) :=
-  [ PathDriver.handle, RefDriver.handle, FileDriver.handle, CopyDriver.handle, ArchiveDriver.handle, RouteDriver.handle, FaultDriver.handle, GuardDriver.handle ]
+  [ PathDriver.handle, RefDriver.handle, FileDriver.handle, CopyDriver.handle, ArchiveDriver.handle, RouteDriver.handle, FaultDriver.handle, GuardDriver.handle, ParseDriver.handle, WalkDriver.handle, ConfineDriver.handle ]
 
 def dispatch (line : String) : String :=
   match (line.trimAscii.toString.splitOn " ").filter (· ≠ "") with
